@@ -105,28 +105,28 @@ theorem mutual_valid : ∀ d, hasType env (4 * d + 3) (.cls 2) (mutualA d) = tru
 theorem chain_roundtrip (d : Nat) :
     ∃ m, mar env (pyLeaves env) (2 * d + 3) (.cls 0) (chain d) = .ok m
       ∧ um env (pyLeaves env) (2 * d + 3) (.cls 0) m = .ok (chain d) :=
-  C01.roundtrip_core env 0 env_wf env_noEnums _ _ _ (by decide) (chain_valid d)
+  C01.roundtrip_core env 0 env_wf (enumWF_of_noEnums _ env_noEnums) _ _ _ (by decide) (chain_valid d)
 
 theorem tree_roundtrip (d : Nat) :
     ∃ m, mar env (pyLeaves env) (2 * d + 3) (.cls 1) (tree d) = .ok m
       ∧ um env (pyLeaves env) (2 * d + 3) (.cls 1) m = .ok (tree d) :=
-  C01.roundtrip_core env 0 env_wf env_noEnums _ _ _ (by decide) (tree_valid d)
+  C01.roundtrip_core env 0 env_wf (enumWF_of_noEnums _ env_noEnums) _ _ _ (by decide) (tree_valid d)
 
 theorem mutual_roundtrip (d : Nat) :
     ∃ m, mar env (pyLeaves env) (4 * d + 3) (.cls 2) (mutualA d) = .ok m
       ∧ um env (pyLeaves env) (4 * d + 3) (.cls 2) m = .ok (mutualA d) :=
-  C01.roundtrip_core env 0 env_wf env_noEnums _ _ _ (by decide) (mutual_valid d)
+  C01.roundtrip_core env 0 env_wf (enumWF_of_noEnums _ env_noEnums) _ _ _ (by decide) (mutual_valid d)
 
 /-- … also with a container of the cyclic class as the root annotation (`list[Tree]`), every depth. -/
 theorem tree_list_roundtrip (d : Nat) :
     ∃ m, mar env (pyLeaves env) (2 * d + 4) (.coll .list (.cls 1)) (.list [tree d]) = .ok m
       ∧ um env (pyLeaves env) (2 * d + 4) (.coll .list (.cls 1)) m = .ok (.list [tree d]) := by
-  apply C01.roundtrip_core env 0 env_wf env_noEnums _ _ _ (by decide)
+  apply C01.roundtrip_core env 0 env_wf (enumWF_of_noEnums _ env_noEnums) _ _ _ (by decide)
   exact list_step _ _ (tree_valid d)
 
 /-- Every level is converted, none passed through raw: an already-converted value of any depth is a
     fixed point of unmarshal (C13), so the nested members are instances, not wire dicts. -/
 theorem chain_passthrough (d : Nat) : um env (pyLeaves env) (2 * d + 3) (.cls 0) (chain d) = .ok (chain d) :=
-  C13.passthrough_core env 0 env_wf (by intro c; match c with | 0 | 1 | 2 | 3 => rfl | _ + 4 => rfl) _ _ _ (by decide) (chain_valid d)
+  C13.passthrough_core env 0 env_wf _ _ _ (by decide) (chain_valid d)
 
 end Typelib.C07
